@@ -81,11 +81,64 @@ def replay_file(sim_cls, path, quiet=False):
 
 
 def _fresh_replay_ok(prop, path):
-    """Re-execute the minimised trace in a fresh interpreter; must fail identically."""
+    """Re-execute the minimised trace in a fresh interpreter; must fail identically (same signature)."""
     env = dict(os.environ)
-    p = subprocess.run([sys.executable, os.path.join(VERIF_DIR, "check"), prop, "--replay", path],
+    p = subprocess.run([sys.executable, os.path.join(VERIF_DIR, "check"), prop, "--replay", path, "--strict"],
                        capture_output=True, text=True, env=env, timeout=600)
     return p.returncode == EXIT_VIOLATION and ("VIOLATION property=%s" % prop) in p.stdout, p.stdout[-2000:] + p.stderr[-2000:]
+
+
+class _V:
+    """minimal stand-in for engine.Violation (signature only) for match_known"""
+    def __init__(self, sig):
+        self.sig = sig
+
+
+def _fresh_seed_run(prop, seed, tier):
+    """execute ONE run seed alone in a fresh interpreter; returns {"cfg","events","violation"} or None"""
+    import tempfile
+    fd, path = tempfile.mkstemp(suffix=".json")
+    os.close(fd)
+    try:
+        subprocess.run([sys.executable, os.path.join(VERIF_DIR, "check"), prop, "--seed-run", str(seed), "--tier", tier, "--emit", path],
+                       capture_output=True, text=True, env=dict(os.environ), timeout=600)
+        with open(path) as f:
+            return json.load(f)
+    except Exception:
+        return None
+    finally:
+        try:
+            os.remove(path)
+        except OSError:
+            pass
+
+
+def _fresh_minimise(prop, seed, cfg, events, sig, detail, budget=40):
+    """History-dependent code under test (process-wide state): every candidate is judged in a FRESH interpreter.  Coarse ddmin."""
+    def ok(evs):
+        path = write_replay(prop, seed, cfg, evs, sig, "", detail, 0)
+        return _fresh_replay_ok(prop, path)[0]
+    if not ok(events):
+        return None
+    budget -= 1
+    n = 2
+    while len(events) >= 2 and budget > 0:
+        chunk = max(1, len(events) // n)
+        reduced = False
+        for start in range(0, len(events), chunk):
+            cand = events[:start] + events[start + chunk:]
+            if not cand or budget <= 0:
+                continue
+            budget -= 1
+            if ok(cand):
+                events, n, reduced = cand, max(n - 1, 2), True
+                break
+        if not reduced:
+            if chunk == 1:
+                break
+            n = min(len(events), n * 2)
+    path = write_replay(prop, seed, cfg, events, sig, "", detail, 40 - budget)
+    return path, events
 
 
 def batch(sim_cls, tier: str, base_seed: int, runs: int = None, workers: int = None, wall_cap: float = None,
@@ -188,22 +241,59 @@ def batch(sim_cls, tier: str, base_seed: int, runs: int = None, workers: int = N
                     samples.append({"seed": r["seed"], "cfg": r2.cfg, "events": r2.events[:60]})
             except BaseException as e:
                 harness_errors.append("determinism recheck seed %d: %r" % (r["seed"], e))
-        if det_mismatch:
-            harness_errors.append("nondeterminism: digests differ on re-execution for seeds %r" % (det_mismatch[:5],))
+    nondet_note = None
+    if det_mismatch:
+        nondet_note = "nondeterminism: digests differ on re-execution for seeds %r" % (det_mismatch[:5],)
+        if not viol:
+            harness_errors.append(nondet_note)
+        # with violations present, the verdict is decided by the replays below: a violation that reproduces from its file in a FRESH
+        # interpreter is a verdict whatever else happened (code under test that keeps process-global state between runs - a module-level
+        # cache, a class attribute shared by instances - makes runs depend on their predecessors in the worker, hence the digest mismatch)
 
     # ---- violations: minimise, replay in a fresh interpreter, report -------------------
     reported = []
+    pending_notes = []
+    fresh_tried, fresh_seen = [0], set()
     if viol and not harness_errors:
         by_sig = collections.OrderedDict()
+        examples = collections.defaultdict(list)
         for r in viol:
             by_sig.setdefault(tuple(r["violation"]["signature"]), r)
-        for sig, r in list(by_sig.items())[:4]:
+            examples[tuple(r["violation"]["signature"])].append(r)
+        for sig, r in list(by_sig.items())[:(8 if det_mismatch else 4)]:
             sig = list(sig)
             try:
+                if det_mismatch:
+                    # runs depend on their predecessors in the process (the code under test keeps process-wide state): a verdict needs a
+                    # run that violates the property when executed ALONE in a fresh interpreter; it is then minimised in fresh interpreters
+                    if fresh_tried[0] >= 24 or len(reported) >= 2:
+                        continue
+                    done = False
+                    for rr in examples[tuple(sig)][:6]:
+                        if rr["seed"] in fresh_seen:
+                            continue
+                        fresh_seen.add(rr["seed"])
+                        fresh_tried[0] += 1
+                        got1 = _fresh_seed_run(prop, rr["seed"], tier)
+                        if not got1 or not got1.get("violation"):
+                            continue
+                        fsig, fdetail = got1["violation"]["signature"], got1["violation"]["detail"]
+                        if match_known(known, _V(fsig)):
+                            continue
+                        got = _fresh_minimise(prop, rr["seed"], got1["cfg"], got1["events"], fsig, fdetail)
+                        if got:
+                            reported.append({"signature": fsig, "seed": rr["seed"], "replay": got[0], "events": len(got[1]),
+                                             "events_before": len(got1["events"]), "detail": fdetail[:600] +
+                                             "\n(the code under test keeps state between the runs of one process; judged and minimised in fresh interpreters)"})
+                            done = True
+                            break
+                    if not done:
+                        pending_notes.append("signature %r: no run violated the property when executed alone in a fresh interpreter" % (sig,))
+                    continue
                 cfg = make_cfg(sim_cls, r["seed"], tier)
                 full = execute(sim_cls, cfg, None)
                 if full.violation is None or full.violation.sig != sig:
-                    harness_errors.append("violation of seed %d did not reproduce on regeneration" % r["seed"])
+                    (pending_notes if det_mismatch else harness_errors).append("violation of seed %d did not reproduce on regeneration" % r["seed"])
                     continue
                 mcfg, mevents, execs = minimise(sim_cls, cfg, full.events, sig)
                 final = execute(sim_cls, mcfg, mevents)
@@ -211,7 +301,7 @@ def batch(sim_cls, tier: str, base_seed: int, runs: int = None, workers: int = N
                                     final.violation.detail if final.violation else "", execs)
                 ok, out = _fresh_replay_ok(prop, path)
                 if not ok:
-                    harness_errors.append("minimised replay %s did not reproduce in a fresh interpreter:\n%s" % (path, out))
+                    (pending_notes if det_mismatch else harness_errors).append("minimised replay %s did not reproduce in a fresh interpreter:\n%s" % (path, out))
                     continue
                 reported.append({"signature": sig, "seed": r["seed"], "replay": path, "events": len(mevents),
                                  "events_before": len(full.events), "detail": (final.violation.detail or "")[:600]})
@@ -219,6 +309,10 @@ def batch(sim_cls, tier: str, base_seed: int, runs: int = None, workers: int = N
                 harness_errors.append("minimisation failed for seed %d: %s" % (
                     r["seed"], "".join(traceback.format_exception(type(e), e, e.__traceback__))[-2000:]))
 
+    if det_mismatch and viol and not reported:
+        # nothing reproducible came out of it: no verdict
+        harness_errors.append(nondet_note)
+        harness_errors.extend(pending_notes)
     wall = time.time() - t_start
     n = len(good)
     ev = {
@@ -246,7 +340,7 @@ def batch(sim_cls, tier: str, base_seed: int, runs: int = None, workers: int = N
         "nontrivial_runs": nontrivial,
         "probes": {k: probes.get(k, 0) for k in sim_cls.PROBES} | dict(probes),
         "components": sim_cls.COMPONENTS,
-        "determinism_recheck": {"seeds": det_n, "mismatches": len(det_mismatch)},
+        "determinism_recheck": {"seeds": det_n, "mismatches": len(det_mismatch), "note": nondet_note},
         "known_findings_hit": dict(known_hits),
         "known_findings_listed": [k["id"] for k in known],
         "violations_found": reported,
@@ -287,7 +381,9 @@ def main(argv, registry):
     ap.add_argument("prop")
     ap.add_argument("--tier", default=os.environ.get("VERIF_TIER", "quick"), choices=["quick", "thorough"])
     ap.add_argument("--replay")
+    ap.add_argument("--strict", action="store_true", help="with --replay: exit 1 only if the recorded signature itself is reproduced")
     ap.add_argument("--seed-run", type=int, help="run one raw run seed verbosely")
+    ap.add_argument("--emit", help="with --seed-run: write {cfg, events, violation} as JSON to this path")
     ap.add_argument("--runs", type=int)
     ap.add_argument("--digests", action="store_true", help="print per-run digests (determinism self-test)")
     ap.add_argument("--survey", action="store_true", help="triage aid: list every distinct violation signature with counts (no minimisation, no verdict)")
@@ -299,13 +395,16 @@ def main(argv, registry):
         if same:
             print("VIOLATION property=%s replay=%s" % (a.prop, a.replay))
             return EXIT_VIOLATION
-        if r.violation is not None:
+        if r.violation is not None and not a.strict:
             print("different violation than recorded: %r" % (r.violation,))
             print("VIOLATION property=%s replay=%s" % (a.prop, a.replay))
             return EXIT_VIOLATION
         return EXIT_OK
     if a.seed_run is not None:
         r = run_seed(sim_cls, a.seed_run, a.tier, keep_events=True)
+        if a.emit:
+            with open(a.emit, "w") as f:
+                json.dump({"cfg": r.cfg, "events": r.events, "violation": r.violation.to_json() if r.violation else None}, f, default=engine.canon)
         print(json.dumps({"cfg": r.cfg, "events": r.events}, default=engine.canon)[:6000])
         print("digest", r.digest, "steps", r.steps, "violation", r.violation)
         return EXIT_VIOLATION if r.violation else EXIT_OK
